@@ -15,6 +15,9 @@ import (
 	"os"
 	"sort"
 	"strings"
+
+	"github.com/anz-bank/sysl/pkg/sysl"
+	"google.golang.org/protobuf/proto"
 )
 
 // ---------- abstract description ----------
@@ -1189,6 +1192,9 @@ func runC02(res *Result, tier string, rnd *Rand, replay string) {
 		res.Disagree(Disagreement{What: "oracle failed: " + err.Error()})
 		return
 	}
+	if replay == "" {
+		c02OrderCorpus(res)
+	}
 	for i, j := range jobs {
 		in := map[string]any{"text": j.text, "desc": j.d}
 		if j.err != "" {
@@ -1321,4 +1327,52 @@ func c02StripWrappedFieldRef(missing, extra []string) (m2, e2 []string, n int) {
 		return out
 	}
 	return keep(missing), keep(extra), n
+}
+
+// c02OrderCorpus: the members of an application in every order. Shapes the description language of the generator
+// does not have (a REST path variable typed by a dotted reference, views) beside the ones it has; each ordering
+// must compile, and all orderings of one set of members must compile to the same model (locations apart).
+func c02OrderCorpus(res *Result) {
+	members := [][]string{
+		{"    !type T:\n        x <: int\n", "    Ep (p <: int):\n        ...\n", "    /x/{id <: A.T}:\n        GET:\n            ...\n"},
+		{"    !type T:\n        x <: int\n", "    !union U:\n        T\n        int\n", "    /y/{id <: A.T}:\n        GET:\n            ...\n"},
+		{"    !type T:\n        x <: int\n", "    !alias L:\n        sequence of T\n", "    /z/{id <: A.T}/sub/{k <: int}:\n        POST (b <: T [~body]):\n            ...\n"},
+		{"    !table Tab:\n        id <: int [~pk]\n", "    <-> Ev (e <: int):\n        ...\n", "    /w/{id <: A.Tab}:\n        GET ?q=int:\n            ...\n", "    !enum E:\n        A: 1\n"},
+		{"    !type T:\n        x <: int\n", "    !view V(a <: int) -> int:\n        a -> (:\n            out = a + 1\n        )\n", "    Ep2 (p <: T, q <: set of int):\n        return ok <: T\n", "    !alias M:\n        T\n"},
+	}
+	for mi, ms := range members {
+		var ref *sysl.Module
+		refText := ""
+		perm := make([]int, len(ms))
+		for i := range perm {
+			perm[i] = i
+		}
+		var rec func(k int)
+		rec = func(k int) {
+			if k == len(perm) {
+				text := "A:\n"
+				for _, i := range perm {
+					text += ms[i]
+				}
+				res.Count("order-corpus")
+				m, err := compileFiles(map[string]string{"main.sysl": text}, "main.sysl")
+				if err != nil {
+					res.Violate(Violation{Sig: "well-formed-text-rejected:" + c01Site(err.Error()), What: "members that compile in one order are rejected in another: " + firstLine(err.Error()), Input: map[string]any{"text": text, "set": mi}})
+					return
+				}
+				if ref == nil {
+					ref, refText = m, text
+				} else if !proto.Equal(stripped(ref), stripped(m)) {
+					res.Violate(Violation{Sig: "member-order-changes-the-model", What: "the same members of an application in two orders compile to different models", Input: map[string]any{"text": text, "other": refText}})
+				}
+				return
+			}
+			for i := k; i < len(perm); i++ {
+				perm[k], perm[i] = perm[i], perm[k]
+				rec(k + 1)
+				perm[k], perm[i] = perm[i], perm[k]
+			}
+		}
+		rec(0)
+	}
 }
